@@ -2,6 +2,7 @@ import SqiModel.Util
 import SqiModel.Intbig
 import SqiModel.NumberTheory
 import SqiModel.Kernels
+import SqiModel.Howell
 /- driver ops of the C17 models (integers in hex with optional '-', one result line per op) -/
 namespace SqiModel.Drv.Int
 open SqiModel SqiModel.Util SqiModel.Intbig SqiModel.NumberTheory SqiModel.Kernels
@@ -80,6 +81,9 @@ def handle : List String → Option String
   | ["tav", x] => do
       let x ← parseHexInt? x
       pure (toHex (twoAdicValuationOfIbz x))
+  | ["twoadic", x] => do
+      let x ← parseHexInt? x
+      pure (toHex (ibzTwoAdic x))
   | ["bitsize", x] => do
       let x ← parseHexInt? x
       pure (toHex (sizeInBase2 x))
@@ -130,6 +134,35 @@ def handle : List String → Option String
       let p ← parseHexInt? p; let es ← parseInts? es
       if es.length ≠ 20 then none else
       pure (showRes hs (ker4x5ModPrime (toMat 5 es) p))
+  | "ker44two" :: e :: es => do
+      let e ← parseHexNat? e; let es ← parseInts? es
+      if es.length ≠ 16 then none else
+      pure (showRes hs (SqiModel.Howell.ker4x4ModPow2 (SqiModel.Howell.ofLists (toMat 4 es)) e))
+  | "howell" :: rows :: cols :: m :: es => do
+      let rows ← parseHexNat? rows; let cols ← parseHexNat? cols; let m ← parseHexInt? m; let es ← parseInts? es
+      if es.length ≠ rows * cols ∨ cols = 0 ∨ cols > rows then none else
+      let (H, T, z) := SqiModel.Howell.matHowell rows cols (SqiModel.Howell.ofLists (toMat cols es)) m
+      pure (toHex z ++ " " ++ hs (SqiModel.Howell.toLists H).flatten ++ " | " ++ hs (SqiModel.Howell.toLists T).flatten)
+  | "kermod" :: rows :: cols :: m :: es => do
+      let rows ← parseHexNat? rows; let cols ← parseHexNat? cols; let m ← parseHexInt? m; let es ← parseInts? es
+      if es.length ≠ rows * cols ∨ cols = 0 ∨ cols > rows then none else
+      pure (hs (SqiModel.Howell.toLists (SqiModel.Howell.matRightKerMod rows cols (SqiModel.Howell.ofLists (toMat cols es)) m)).flatten)
+  | ["repint", nd, trials, p, n, st] => do
+      let nd ← parseHexNat? nd; let trials ← parseHexNat? trials; let p ← parseHexInt? p; let n ← parseHexInt? n
+      let st ← parseStream? st
+      pure (match representInteger probabPrime (nd != 0) trials n p st with
+        | .ok (o, rest) => "1 " ++ h o.nOut ++ " " ++ hs o.coord ++ " " ++ h o.denom ++ " " ++ toHex (st.length - rest.length)
+        | .fail => "0"
+        | .ub => "ub")
+  | "chkmul" :: r :: k :: c :: n :: es => do
+      -- chkmul r k c N  A(r*k) B(k*c) C(r*c): 1 iff A·B ≡ C (mod N)
+      let r ← parseHexNat? r; let k ← parseHexNat? k; let c ← parseHexNat? c; let n ← parseHexInt? n
+      let es ← parseInts? es
+      if es.length ≠ r * k + k * c + r * c ∨ k = 0 ∨ c = 0 then none else
+      let A := toMat k (es.take (r * k))
+      let B := toMat c ((es.drop (r * k)).take (k * c))
+      let C := toMat c (es.drop (r * k + k * c))
+      pure (if matMulCheck A B C c n then "1" else "0")
   | "chkker2e" :: e :: es => do
       let e ← parseHexNat? e; let es ← parseInts? es
       if es.length ≠ 20 then none else
